@@ -31,15 +31,26 @@ def header_schema_paths(ctx):
     if not isinstance(MS, ClassV) or not isinstance(VR, ClassV):
         raise AnalysisError("anchor vanished: codegen.parser.MessageSchema / codegen.versions.VersionRange")
     rows = []
+    # the range the parser produces for flexibleVersions "none" (never flexible), however it chooses to represent it
+    try:
+        vals = I.iterate_concrete(I.call(I.getattr_(VR, "__get_validators__", Run(), None), [], {}, Run(), None), Run(), None)
+        none_range = I.call(vals[0], ["none"], {}, Run(), None)
+    except (Raised, Limit) as e:
+        raise AnalysisError(f"VersionRange validator not understood: {e}")
     for typ in ("request", "response"):
         for key in (7, 18, 3):
             for version in (0, 1):
-                for flexible in (False, True):
+                for flexible in (False, True, "none"):
                     # flexibleVersions chosen so that matches(version) == flexible
-                    fv = I.call(VR, [version if flexible else version + 1, 99], {}, Run(), None)
+                    if flexible == "none":
+                        fv, flexible = none_range, False
+                        label = "flexibleVersions='none'"
+                    else:
+                        fv = I.call(VR, [version if flexible else version + 1, 99], {}, Run(), None)
+                        label = None
                     schema = InstV(MS, {"type": typ, "apiKey": key, "flexibleVersions": fv, "name": "X", "fields": (),
                                         "validVersions": fv})
-                    case = f"type={typ} apiKey={key} version={version} flexible={flexible}"
+                    case = f"type={typ} apiKey={key} version={version} flexible={flexible}" + (f" ({label})" if label else "")
                     try:
                         got = I.call(fn, [schema, version], {}, Run(), None)
                     except Raised as r:
